@@ -53,6 +53,11 @@ const smtPrelude = `(set-option :print-success false)
 (declare-fun tk_b3 ((_ BitVec 64) (_ BitVec 64)) (_ BitVec 8))
 (declare-fun tk_str ((_ BitVec 64) (_ BitVec 64)) (_ BitVec 64))
 (declare-fun str_tok ((_ BitVec 64)) (_ BitVec 64))
+(declare-fun tk_ctl ((_ BitVec 64) (_ BitVec 64)) (_ BitVec 8))
+(declare-fun tk_clen ((_ BitVec 64) (_ BitVec 64)) (_ BitVec 64))
+(declare-fun tk_cb1 ((_ BitVec 64) (_ BitVec 64)) (_ BitVec 8))
+(declare-fun tk_cb2 ((_ BitVec 64) (_ BitVec 64)) (_ BitVec 8))
+(declare-fun tk_cb3 ((_ BitVec 64) (_ BitVec 64)) (_ BitVec 8))
 `
 
 func NewSolver(kind string, timeoutMs int) (*Solver, error) {
